@@ -1,0 +1,18 @@
+//go:build verif
+
+package compact
+
+// Verification hooks for property C10 (/verif): the Uint64Map layout the index builder creates for
+// a feature block (unexported bucketBitsForCount and tagBits). Nothing here changes behaviour; the
+// file is only compiled with -tags verif.
+
+import (
+	"diagonal.works/b6"
+	"diagonal.works/b6/encoding"
+)
+
+// VerifC10BlockLayout returns the layout addFeatureBlockBuilder gives a block of count features of type t.
+func VerifC10BlockLayout(count uint64, t b6.FeatureType) (bucketBits int, tagBits_ int) {
+	m := encoding.NewUint64MapBuilder(bucketBitsForCount(count), tagBits[t])
+	return m.Layout.BucketBits, m.Layout.TagBits
+}
